@@ -225,7 +225,8 @@ fn block(b: &Block, v: &Variant, after_para: bool) -> Vec<String> {
         "Tbl" => {
             let mut out = vec![];
             for (r, row) in b.rows.iter().enumerate() {
-                let cells: Vec<String> = row.iter().map(|c| inlines(c, v).replace('\n', " ")).collect();
+                // (inside a table a pipe is escaped wherever it stands, also within a code span)
+                let cells: Vec<String> = row.iter().map(|c| escape_pipes(&inlines(c, v).replace('\n', " "))).collect();
                 out.push(format!("| {} |", cells.join(" | ")));
                 if r == 0 {
                     out.push(format!("|{}|", row.iter().map(|_| "---").collect::<Vec<_>>().join("|")));
@@ -235,6 +236,20 @@ fn block(b: &Block, v: &Variant, after_para: bool) -> Vec<String> {
         }
         _ => vec![],
     }
+}
+
+/// every `|` that is not already escaped gets a backslash
+fn escape_pipes(s: &str) -> String {
+    let mut out = String::new();
+    let mut prev_backslash = false;
+    for c in s.chars() {
+        if c == '|' && !prev_backslash {
+            out.push('\\');
+        }
+        prev_backslash = c == '\\' && !prev_backslash;
+        out.push(c);
+    }
+    out
 }
 
 pub fn render(d: &Doc, v: &Variant) -> String {
